@@ -44,3 +44,41 @@ dproof!(d4_start_board, {
     let b = start_board(0);
     assert!(b.raw().move_number == 1);
 });
+
+dproof!(d5_push_and_model, {
+    let (mut ch, md) = build(0, 0);
+    let ks: bool = kani::any();
+    let m = if ks { M { kind: K_OO, cell: 2, src: 60, dst: 62 } } else { M { kind: K_OOO, cell: 2, src: 60, dst: 58 } };
+    let want = md.cur().make_move(mv_of(m));
+    let r = ch.push(mv_of(m));
+    assert!(r.is_ok() == want.is_ok());
+    if let Ok(nb) = want {
+        assert!(crate::c03::same_board(ch.last(), &nb));
+    }
+    core::mem::forget(ch);
+});
+
+dproof!(d6_push_pop, {
+    let (mut ch, md) = build(0, 0);
+    let ks: bool = kani::any();
+    let m = if ks { M { kind: K_OO, cell: 2, src: 60, dst: 62 } } else { M { kind: K_OOO, cell: 2, src: 60, dst: 58 } };
+    let r = ch.push(mv_of(m));
+    assert!(r.is_ok());
+    let got = ch.pop();
+    assert!(got == Some(mv_of(m)));
+    assert!(crate::c03::same_board(ch.last(), md.cur()));
+    core::mem::forget(ch);
+});
+
+dproof!(d7_push_sym_result, {
+    // push of a castling that may be refused (symbolic acceptance), then len / get
+    let (mut ch, _md) = build(4, 0);
+    let ks: bool = kani::any();
+    let m = if ks { M { kind: K_OO, cell: 2, src: 60, dst: 62 } } else { M { kind: K_SIMPLE, cell: 2, src: 60, dst: 52 } };
+    let r = ch.push(mv_of(m));
+    assert!(r.is_ok() == !ks);
+    assert!(ch.len() == (!ks) as usize);
+    let got = ch.pop();
+    assert!(got.is_some() == !ks);
+    core::mem::forget(ch);
+});
